@@ -219,6 +219,9 @@ pub enum RxOp {
     Train { lab: Lab, id: u8, len: u16, cut: u16, upto: u8 },
     Reset,
     Raw(Vec<u8>),
+    /// valid complete packet (first = false) or first + end fragments carrying an extension chain
+    /// (non-final chain followed by `ptype`, or closed by a final mandatory extension)
+    Ext { lab: Lab, id: u8, len: u16, first: bool, ptype: u16, exts: Vec<ExtSpec> },
 }
 
 #[derive(Clone, Debug, PartialEq, Eq, Hash, Serialize, Deserialize)]
@@ -238,11 +241,17 @@ pub struct RandCase {
     pub muts: Vec<Mutation>,
 }
 
+pub fn rx_ext_op() -> impl Strategy<Value = RxOp> {
+    (lab_any(), frag_id_any(), 0u16..200, any::<bool>(), ptype_user(), prop_oneof![3 => super::sender::ext_chain(false), 1 => super::sender::ext_chain(true)])
+        .prop_map(|(lab, id, len, first, ptype, exts)| RxOp::Ext { lab, id, len, first, ptype, exts })
+}
+
 pub fn rx_op() -> impl Strategy<Value = RxOp> {
     prop_oneof![
+        2 => rx_ext_op(),
         2 => (0u8..4).prop_map(RxOp::Provision),
         2 => (lab_any(), 0u16..300).prop_map(|(lab, len)| RxOp::Complete { lab, len }),
-        4 => (lab_any(), prop_oneof![0u8..6, any::<u8>()], 1u16..400, 0u16..300, 1u8..4).prop_map(|(lab, id, len, cut, upto)| RxOp::Train { lab, id, len, cut, upto }),
+        4 => (lab_any(), frag_id_any(), 1u16..400, 0u16..300, 1u8..4).prop_map(|(lab, id, len, cut, upto)| RxOp::Train { lab, id, len, cut, upto }),
         1 => Just(RxOp::Reset),
         2 => prop::collection::vec(any::<u8>(), 0..40).prop_map(RxOp::Raw),
     ]
@@ -251,8 +260,9 @@ pub fn rx_op() -> impl Strategy<Value = RxOp> {
 /// like `rx_op` but only the operations that put packets on the wire (constructive, no filtering)
 pub fn rx_pkt_op() -> impl Strategy<Value = RxOp> {
     prop_oneof![
+        2 => rx_ext_op(),
         2 => (lab_any(), 0u16..300).prop_map(|(lab, len)| RxOp::Complete { lab, len }),
-        4 => (lab_any(), prop_oneof![0u8..6, any::<u8>()], 1u16..400, 0u16..300, 1u8..4).prop_map(|(lab, id, len, cut, upto)| RxOp::Train { lab, id, len, cut, upto }),
+        4 => (lab_any(), frag_id_any(), 1u16..400, 0u16..300, 1u8..4).prop_map(|(lab, id, len, cut, upto)| RxOp::Train { lab, id, len, cut, upto }),
         2 => prop::collection::vec(any::<u8>(), 0..40).prop_map(RxOp::Raw),
     ]
 }
@@ -269,6 +279,16 @@ pub fn op_packets(op: &RxOp) -> Vec<Vec<u8>> {
             t
         }
         RxOp::Raw(b) => vec![b.clone()],
+        RxOp::Ext { lab, id, len, first, ptype, exts } => {
+            let pdu = pdu_bytes(*len as usize, 11);
+            let final_mand = exts.last().map(|e| MAND_FINAL.iter().any(|(i, _)| *i == e.id)).unwrap_or(false);
+            let pt = if final_mand { exts.last().unwrap().id } else { *ptype };
+            if *first && !final_mand && pdu.len() >= 2 {
+                ref_train_ext(*lab, pt, *id, &pdu, &[pdu.len() / 2], exts)
+            } else {
+                vec![ref_complete(*lab, pt, &pdu, exts, final_mand)]
+            }
+        }
         _ => vec![],
     }
 }
@@ -307,7 +327,7 @@ fn rand_strategy(t: Tier) -> BoxedStrategy<RandCase> {
         1 => (lab_any(), 300u16..8000).prop_map(|(lab, len)| RxOp::Train { lab, id: 1, len, cut: 200, upto: 3 }),
     ];
     let m = (0u8..6, any::<u16>(), any::<u8>()).prop_map(|(kind, at, val)| Mutation { kind, at, val });
-    bx((1u8..=4, prop_oneof![Just(0u16), 1u16..64, 64u16..500], prop::collection::vec(rx_op(), 0..8), base, prop::collection::vec(m, 0..3))
+    bx((prop_oneof![5 => 1u8..=4, 1 => Just(0u8)], prop_oneof![Just(0u16), 1u16..64, 64u16..500], prop::collection::vec(rx_op(), 0..8), base, prop::collection::vec(m, 0..3))
         .prop_map(|(slots, pdu_size, prefix, base, muts)| RandCase { slots, pdu_size, prefix, base, muts }))
 }
 
@@ -333,7 +353,8 @@ pub fn mutate(buf: &mut Vec<u8>, m: &Mutation) {
 }
 
 fn check_rand(c: &RandCase, st: &mut Stats) -> Result<(), String> {
-    let mut d = new_simple_dec(c.slots as usize, c.pdu_size as usize, &[], TableManager::all());
+    let mut d = new_simple_dec(slots_of(c.slots), c.pdu_size as usize, &[], TableManager::all());
+    st.class_if(c.slots == 0, "256-slots");
     for op in &c.prefix {
         apply_rx_op(&mut d, op, c.pdu_size as usize, st);
     }
